@@ -88,6 +88,8 @@ pub struct Violation {
     pub faulted: u8,
     /// a panic was observed or expected in the step's events
     pub panic_involved: bool,
+    /// replaces op/via in the signature when set (e.g. back end + alignment)
+    pub context: String,
     pub detail: String,
 }
 impl Violation {
@@ -98,6 +100,9 @@ impl Violation {
             VIA_UNCHECKED => "unchecked",
             _ => "erased",
         };
+        if !self.context.is_empty() {
+            return format!("{}/{}", self.class.name(), self.context);
+        }
         let mut s = format!("{}/{}/{}", self.class.name(), self.op.name(), via);
         if self.faulted != 0 {
             s.push('/');
@@ -193,6 +198,8 @@ struct Ctx<'a> {
     rep: RunReport,
     opts: ExecOpts,
     policy: EnvPolicy,
+    /// first non-fatal finding of the run (reported if nothing else is found)
+    soft: Option<Violation>,
 }
 
 fn hash_snap(h: &mut LogHash, s: &Snap) {
@@ -259,7 +266,7 @@ impl<'a> Ctx<'a> {
             }
             None => (Op::Nop, 0, self.info.be[0].on_stack() || self.info.be[1].on_stack()),
         };
-        Violation { class, step, op, via, on_stack, faulted, panic_involved: false, detail }
+        Violation { class, step, op, via, on_stack, faulted, panic_involved: false, context: String::new(), detail }
     }
 
     fn take_snaps(&mut self) {
@@ -270,6 +277,38 @@ impl<'a> Ctx<'a> {
 
     /// checks that hold after every step, strict or relaxed
     fn check_common(&mut self, step: i32, p: Option<&Pred>, faulted: u8) -> Result<(), Violation> {
+        for s in 0..3 {
+            let sn = &self.snaps[s];
+            if sn.exists && !sn.aligned {
+                if self.opts.free_place {
+                    // the placement sweep (C12) notes the finding, restores an aligned placement
+                    // and goes on, so that one finding does not hide the rest of the run
+                    if self.soft.is_none() {
+                        let mut v = self.viol(
+                            Class::Misaligned,
+                            step,
+                            p,
+                            faulted,
+                            format!("slot {} ({}): element storage is not aligned to {} (vector object placed at an admissible address)", s, self.info.be_of(s).label(), self.info.align),
+                        );
+                        v.context = format!("{}/align={}", self.info.be_of(s).kind.name(), self.info.align);
+                        self.soft = Some(v);
+                    }
+                    self.world.realign(s);
+                    self.snaps[s] = self.world.snapshot(s);
+                    continue;
+                }
+                let mut v = self.viol(
+                    Class::Misaligned,
+                    step,
+                    p,
+                    faulted,
+                    format!("slot {} ({}): element storage is not aligned to {} (vector object placed at an admissible address)", s, self.info.be_of(s).label(), self.info.align),
+                );
+                v.context = format!("{}/align={}", self.info.be_of(s).kind.name(), self.info.align);
+                return Err(v);
+            }
+        }
         let c = registry::counters();
         if c.double_drops > 0 {
             return Err(self.viol(Class::DoubleDrop, step, p, faulted, format!("{} value(s) destroyed twice (first tag {})", c.double_drops, registry::first_bad_tag())));
@@ -745,7 +784,7 @@ pub fn run(scn: &Scenario, world: &mut dyn WorldOps, opts: &ExecOpts) -> RunRepo
     simalloc::begin_run(opts.alloc_monitor, scn.policy.realloc_moves != 0);
     world.configure(opts.free_place, opts.poison_spare);
     world.reset(scn.place);
-    let mut cx = Ctx { world, model: Model::new(info.clone()), info: info.clone(), snaps: Default::default(), h: LogHash::new(), rep: RunReport::default(), opts: opts.clone(), policy: scn.policy };
+    let mut cx = Ctx { world, model: Model::new(info.clone()), info: info.clone(), snaps: Default::default(), h: LogHash::new(), rep: RunReport::default(), opts: opts.clone(), policy: scn.policy, soft: None };
     cx.h.u64(scn.world as u64);
     cx.take_snaps();
 
@@ -791,6 +830,9 @@ pub fn run(scn: &Scenario, world: &mut dyn WorldOps, opts: &ExecOpts) -> RunRepo
         }
     }
     rep.hash = cx.h.0;
+    if violation.is_none() {
+        violation = cx.soft.take();
+    }
     rep.violation = violation;
     rep
 }
